@@ -47,7 +47,7 @@ func (tpl replyTpl) wire4(req *dhcpv4.DHCPv4) []byte {
 	case 6:
 		rep.ClientHWAddr = net.HardwareAddr{2, 0, 0, 0, 0, 0x77}
 	case 7:
-		rep.OpCode = dhcpv4.OpcodeBootRequest
+		rep.OpCode = []dhcpv4.OpcodeType{dhcpv4.OpcodeBootRequest, 0, 3, 0x82, 0xff}[int(tpl.yi)%5]
 	}
 	b := rep.ToBytes()
 	if tpl.kind == 4 {
@@ -285,7 +285,12 @@ func renewRelease(r *Run) {
 		yi := net.IP{192, 168, 0, byte(1 + r.Rng.Intn(250))}
 		sid := net.IP{10, 0, 0, byte(1 + r.Rng.Intn(3))}
 		disc, _ := dhcpv4.NewDiscovery(labHW)
-		offer, _ := dhcpv4.NewReplyFromRequest(disc, dhcpv4.WithMessageType(dhcpv4.MessageTypeOffer), dhcpv4.WithYourIP(yi), dhcpv4.WithOption(dhcpv4.OptServerIdentifier(sid)))
+		// the leased address is the ACK's; an OFFER may have proposed another one
+		offYi := yi
+		if r.Rng.Intn(2) == 0 {
+			offYi = net.IP{192, 168, 1, byte(1 + r.Rng.Intn(250))}
+		}
+		offer, _ := dhcpv4.NewReplyFromRequest(disc, dhcpv4.WithMessageType(dhcpv4.MessageTypeOffer), dhcpv4.WithYourIP(offYi), dhcpv4.WithOption(dhcpv4.OptServerIdentifier(sid)))
 		ack, _ := dhcpv4.NewReplyFromRequest(disc, dhcpv4.WithMessageType(dhcpv4.MessageTypeAck), dhcpv4.WithYourIP(yi), dhcpv4.WithOption(dhcpv4.OptServerIdentifier(sid)))
 		lease := &nclient4.Lease{Offer: offer, ACK: ack}
 		c.Renew(context.Background(), lease)
